@@ -48,6 +48,13 @@ func note(s string) {
 func parent(a lib.Args) {
 	w := lib.NewWriter(a.Out)
 	defer w.Close()
+	// the listeners and clients with mock DRKeys, then a listener whose keys come
+	// from a fake DRKey daemon (they depend on the hosts)
+	runChild(a, w, []string{childEnv + "=1", "USE_MOCK_KEYS=true"}, "srv")
+	runChild(a, w, []string{childEnv + "=keyed", "USE_MOCK_KEYS=false"}, "srv.keyed")
+}
+
+func runChild(a lib.Args, w *lib.Writer, env []string, crashKind string) {
 	exe, err := os.Executable()
 	if err != nil {
 		panic(err)
@@ -57,7 +64,7 @@ func parent(a lib.Args) {
 		args = append(args, "-replay", a.Replay)
 	}
 	cmd := exec.Command(exe, args...)
-	cmd.Env = append(os.Environ(), childEnv+"=1", "USE_MOCK_KEYS=true")
+	cmd.Env = append(os.Environ(), env...)
 	stdout, err := cmd.StdoutPipe()
 	if err != nil {
 		panic(err)
@@ -142,7 +149,7 @@ loop:
 			// the case in flight: the process that runs the listeners is gone
 			w.Case(cur[0], cur[1]+",crash", cur[2], "1 [] []")
 		} else {
-			w.Case("srv", "crash", "[]", "1 [] []")
+			w.Case(crashKind, "crash", "[]", "1 [] []")
 		}
 	}
 }
@@ -157,6 +164,10 @@ func main() {
 	defer out.Flush()
 	if os.Getenv(probeEnv) != "" {
 		probeMain()
+		return
+	}
+	if os.Getenv(childEnv) == "keyed" {
+		keyedChild(a)
 		return
 	}
 	child(a)
